@@ -1,6 +1,8 @@
 -- GENERATED on every run by /verif/tools/gen_tables.py from /repo/src/rnapolis — do not edit
 
-namespace RnaVerif.Gen
+/-! tables and thresholds of annotator.py / tertiary.py used by the pair model; own namespace `Gen.Ann` so that
+names cannot collide with other generated files -/
+namespace RnaVerif.Gen.Ann
 
 /-- tertiary.BASE_ATOMS -/
 def baseAtoms : List (String × List String) :=
@@ -59,7 +61,7 @@ def minHbondCount : Nat := 2
 
 /-- find_pairs iterates the atom names of a residue without repetition (`dict.fromkeys(acceptors + donors)`);
 false = `acceptors + donors` with a name listed in both inserted twice -/
-def pointsDeduplicated : Bool := false
+def pointsDeduplicated : Bool := true
 
 /-- `"c" if LO < torsion < HI else "t"` (degrees) in detect_cis_trans -/
 def cisLo : Rat := (-90 : Rat)
@@ -99,4 +101,4 @@ def mergeRules : List (Nat × Nat × Nat) := [(3, 5, 4), (7, 9, 8)]
 /-- class numbers that have a BPh and a BR enum member (`BPh[f"_{k}"]`) -/
 def bphClassNumbers : List Nat := [0, 1, 2, 3, 4, 5, 6, 7, 8, 9]
 
-end RnaVerif.Gen
+end RnaVerif.Gen.Ann
